@@ -101,6 +101,30 @@ class UDSScannerCfg(UDSScannerConfig):
     inject: str = Field("", description="C15 failure injection (JSON)")
 
 
+class InnerScript(AsyncScript):
+    """A second command run from within main() of the judged one (what `gallia script rerun` does): it has its own
+    artifacts directory and its own compressed log while the outer command's log is still open."""
+
+    CONFIG_TYPE = AsyncScriptConfig
+
+    async def main(self) -> None:
+        for i in range(25):
+            logger.info(f"inner command line {i}")
+            await asyncio.sleep(0)
+
+
+async def run_nested(cmd: Any) -> None:
+    sp = _spec(cmd)
+    if sp.get("nested"):
+        from pathlib import Path
+
+        for i in range(10):
+            logger.info(f"outer command line {i} before the inner command")
+        inner = InnerScript(AsyncScriptConfig(artifacts_base=Path(sp["nested"]), hooks=False))
+        rc = await inner.entry_point()
+        logger.info(f"inner command ended with {rc}")
+
+
 class C15Script(AsyncScript):
     CONFIG_TYPE = ScriptCfg
 
@@ -110,6 +134,7 @@ class C15Script(AsyncScript):
 
     async def main(self) -> None:
         enter(self, "main")
+        await run_nested(self)
         await inject(self, "Main")
 
     async def teardown(self) -> None:
